@@ -115,9 +115,76 @@ def check_twin(sc, a, active):
     return None
 
 
+def check_invariants(sc, a, em):
+    e1, e2 = emmodel_invariants(sc, em), emmodel_invariants(scaled(sc, a), em)
+    m = np.isfinite(e1) & np.isfinite(e2)
+    dev = float((np.abs(e1 - e2)[m] / np.maximum(1e-300, np.abs(e1)[m])).max()) if m.any() else 0.0
+    return ("emmodel", dev, "<= 1e-6 relative on ks*lambda, ka*lambda, eps_eff") if not dev <= 1e-6 else None
+
+
+def weak_scene(rng, active):
+    """L-band, weak scatterers (ks between 2e-6 and 5e-5 1/m), deep and hardly absorbing: the scattering still matters, and any absolute
+    (non scale-free) threshold on a coefficient in 1/m is crossed by one of the twins"""
+    sc = scenes.random_scene(rng, nlayer=int(rng.integers(1, 4)), lossless=False, microstructure="exponential", atmosphere=False,
+                             substrate=None if active else "flat", frequency=1.4e9, active=active)
+    k = len(sc["thickness"])
+    ks = np.exp(rng.uniform(np.log(2e-6), np.log(5e-5), k))
+    sc["micro"]["corr_length"] = [round(float(4e-4 * (v / 2.8e-5) ** (1 / 3)), 7) for v in ks]
+    sc["density"] = [round(float(v), 1) for v in rng.uniform(280, 320, k)]
+    sc["thickness"] = [round(float(v), 2) for v in rng.uniform(50, 400, k)]
+    sc["ice_permittivity"] = [3.18, 1e-4]
+    sc["emmodel"], sc["nmax"] = "iba", 16
+    return sc
+
+
+ALL_EM = [("iba", "exponential"), ("iba", "sticky_hard_spheres"), ("iba_original", "exponential"), ("sft_rayleigh", "exponential"),
+          ("rayleigh", "sticky_hard_spheres"), ("dmrt_qca_shortrange", "sticky_hard_spheres"), ("dmrt_qcacp_shortrange", "sticky_hard_spheres"),
+          ("sce_torquato21", "exponential"), ("sce_torquato21", "sticky_hard_spheres"), ("symsce_torquato21", "exponential"),
+          ("symsce_torquato21", "sticky_hard_spheres"), ("sce_torquato21_shortrange", "exponential"),
+          ("symsce_torquato21_shortrange", "exponential"), ("sce_rechtsman08", "exponential")]
+
+
 def oracle(ctx, hints, effort):
     rng = ctx.np
     findings, evals = {}, 0
+    # every scattering theory: ks*lambda, ka*lambda, eps_eff of scaled twins (no solver run), lengths straddling a wide range
+    for it in range(len(ALL_EM) * (2 if effort == "routine" else 8)):
+        em, ms = ALL_EM[it % len(ALL_EM)]
+        sc = const_scene(rng, ms, max_layers=3)
+        sc["emmodel"] = em
+        k = len(sc["thickness"])
+        if ms == "exponential":
+            sc["micro"]["corr_length"] = [round(float(np.exp(rng.uniform(np.log(4e-5), np.log(5e-4)))), 7) for _ in range(k)]
+        a = float(np.exp(rng.uniform(np.log(0.25), np.log(4.0))))
+        try:
+            evals += 2
+            r = check_invariants(sc, a, em)
+        except Exception as e:  # noqa
+            from smrt.core.error import SMRTError
+            if isinstance(e, (SMRTError, Warning, AssertionError)):
+                continue
+            raise
+        if r:
+            key = f"{r[0]}:{em}"
+            findings.setdefault(key, Finding(key, f"scaled twin (a={a:.3f}) differs: {r[0]}", {"kind": "invariants", "scene": sc, "a": a, "em": em}, r[1], r[2]))
+    for it in range(2 if effort == "routine" else 12):
+        active = it % 2 == 1
+        sc = weak_scene(rng, active)
+        a = float(rng.choice([0.25, 4.0]))
+        try:
+            evals += 2
+            r = check_twin(sc, a, active)
+        except AssertionError:
+            continue
+        except Exception as e:  # noqa
+            from smrt.core.error import SMRTError
+            if isinstance(e, (SMRTError, Warning)):
+                continue
+            raise
+        if r:
+            key = f"{r[0]}:weak:{'active' if active else 'passive'}"
+            findings.setdefault(key, Finding(key, f"scaled twin (a={a}) of a deep weakly scattering L-band pack differs: {r[0]}",
+                                             {"scene": sc, "a": a, "active": active}, r[1], r[2]))
     for it in range(5 if effort == "routine" else 60):
         em, ms = pC01.PAIRINGS[it % (3 if effort == "routine" else len(pC01.PAIRINGS))]
         active = it % 4 == 3 and em != "nonscattering"
@@ -141,5 +208,8 @@ def oracle(ctx, hints, effort):
 
 
 def replay(inp, rp=None):
+    if inp.get("kind") == "invariants":
+        r = check_invariants(inp["scene"], inp["a"], inp["em"])
+        return Finding("?", r[0], inp, r[1], r[2]) if r else None
     r = check_twin(inp["scene"], inp["a"], inp["active"])
     return Finding("?", r[0], inp, r[1], r[2]) if r else None
